@@ -36,7 +36,7 @@ class CorrelationAnalyzer(BaseAnalyzer):
         >>> c1.xcorr.sampling_rate  # doctest: +ELLIPSIS
         3.141592653... Hz
         >>> c1.xcorr.t0  # doctest: +ELLIPSIS
-        -15.91549430915... s
+        -15.59718442297... s
 
         """
 
@@ -78,7 +78,7 @@ class CorrelationAnalyzer(BaseAnalyzer):
 
         return ts.TimeSeries(xcorr,
                              sampling_interval=self.input.sampling_interval,
-                             t0=-self.input.sampling_interval * t_points)
+                             t0=-self.input.sampling_interval * (t_points - 1))
 
     @desc.setattr_on_read
     def xcorr_norm(self):
@@ -106,7 +106,7 @@ class CorrelationAnalyzer(BaseAnalyzer):
                 xcorr[i, j] = np.correlate(data_i,
                                           data[j],
                                           mode='full')
-                xcorr[i, j] /= (xcorr[i, j, t_points])
+                xcorr[i, j] /= (xcorr[i, j, t_points - 1])
                 xcorr[i, j] *= self.corrcoef[i, j]
 
         idx = tril_indices(tseries_length, -1)
@@ -114,7 +114,7 @@ class CorrelationAnalyzer(BaseAnalyzer):
 
         return ts.TimeSeries(xcorr,
                              sampling_interval=self.input.sampling_interval,
-                             t0=-self.input.sampling_interval * t_points)
+                             t0=-self.input.sampling_interval * (t_points - 1))
 
 
 class SeedCorrelationAnalyzer(object):
